@@ -824,8 +824,8 @@ Definition expand_target (e : env) (stmt_loc : Z) (tables : list qtable) (res : 
         map (fun column =>
           let c0 := quote_ident e (some_or (qc_name column) (res_name res)) in
           let c1 := if String.eqb scope "" then c0 else scope_name +++ "." +++ c0 in
-          (* counts is only filled when the star is unqualified, and is indexed with the quoted / qualified text *)
-          let cnt := if String.eqb scope "" then count_name tables c1 else 0%nat in
+          (* counts is only filled when the star is unqualified; indexed with the column's own name *)
+          let cnt := if String.eqb scope "" then count_name tables (qc_name column) else 0%nat in
           if Nat.ltb 1 cnt then table_name +++ "." +++ c1 else c1) (qt_cols t)) tables in
   Ok [mkEdit (loc_of res - stmt_loc) (String.concat "." (map (quote_ident e) parts)) (String.concat ", " cols)].
 
